@@ -57,6 +57,7 @@ pub fn entrait_for_single_fn(attr: &EntraitFnAttr, input_fn: InputFn) -> syn::Re
         &trait_generics,
         &Supertraits::None,
         &trait_fns,
+        &[],
         &fn_input_mode,
     )?;
 
@@ -133,6 +134,7 @@ pub fn entrait_for_mod(attr: &EntraitFnAttr, input_mod: InputMod) -> syn::Result
         &trait_generics,
         &Supertraits::None,
         &trait_fns,
+        &[],
         &fn_input_mode,
     )?;
     let impl_block = fn_delegation_codegen::FnDelegationCodegen {
